@@ -161,6 +161,11 @@ func runCase(c Case, r *runlog.R) error {
 		}
 		r.Class("acyclic read compared with the model")
 	}
+	// all settings at once into one struct: sibling fields are evaluated independently of each other, so a
+	// variable used by two fields (or reached by two fields along different paths) is no cycle
+	if err := siblings(cfg, c, w, opts, r); err != nil {
+		return err
+	}
 	// FlattenedKeys: termination only. Which keys a reference to an object or list contributes is not stated
 	// (the library reports the paths of the referenced settings), so the key set is not compared here; C15
 	// compares it for configurations without references.
@@ -170,9 +175,60 @@ func runCase(c Case, r *runlog.R) error {
 	return nil
 }
 
+func siblings(cfg *ucfg.Config, c Case, w *vx.World, opts []ucfg.Option, r *runlog.R) error {
+	var fields []reflect.StructField
+	var want []interface{}
+	anyErr, onlyCyclic := false, true
+	for i, k := range c.Root.Keys {
+		w.Reset()
+		v, err := w.Eval(c.Root.Vals[i])
+		if w.SawCycle && (w.Absorbed || err != vx.ErrCyclic) {
+			return nil // an absorbed cycle somewhere: values are context dependent, nothing to compare
+		}
+		if err != nil {
+			anyErr = true
+			if err != vx.ErrCyclic {
+				onlyCyclic = false
+			}
+		}
+		want = append(want, v)
+		fields = append(fields, reflect.StructField{Name: fmt.Sprintf("F%d", i), Type: reflect.TypeOf((*interface{})(nil)).Elem(), Tag: reflect.StructTag(fmt.Sprintf(`config:"%s"`, k))})
+	}
+	if len(fields) < 2 {
+		return nil
+	}
+	out := reflect.New(reflect.StructOf(fields))
+	gerr := uc.Safe("Unpack", func() error { return cfg.Unpack(out.Interface(), opts...) })
+	if terr := vx.Typed("Unpack into a struct", gerr); terr != nil {
+		return terr
+	}
+	if anyErr {
+		if gerr == nil {
+			return fmt.Errorf("unpacking all settings into one struct succeeded although the model fails for a field")
+		}
+		if !onlyCyclic || vx.IsCyclic(gerr) {
+			return nil
+		}
+		return nil
+	}
+	if gerr != nil {
+		if vx.IsCyclic(gerr) {
+			return fmt.Errorf("no field re-enters a reference, but unpacking all settings into one struct (fields %v) reported a cyclic reference: %v", c.Root.Keys, gerr)
+		}
+		return fmt.Errorf("no field of the model fails, but unpacking all settings into one struct failed: %v", gerr)
+	}
+	for i := range want {
+		if got := out.Elem().Field(i).Interface(); !canon.EqualData(got, want[i]) {
+			return fmt.Errorf("struct field %q: got %s, want %s", c.Root.Keys[i], canon.Show(got), canon.Show(want[i]))
+		}
+	}
+	r.Class("sibling struct fields compared")
+	return nil
+}
+
 var subCycles = runlog.Register(&runlog.Sub[Case]{
 	Name:    "reference-graphs",
-	Rule:    "reference graphs over settings a-d, o{x,y}, l[2] with names drawn mostly from the own tree (self references, ancestor/descendant references through the object o, chains, diamonds, the same name several times in one string, references inside names and defaults), optionally an Env config and a resolver that can absorb a cycle. Every read entry point (typed getters, Child, Has, CountField, Unpack, use as merge source, FlattenedKeys, CompareConfigs) must return with typed errors; a field whose evaluation never re-enters a reference must yield the model's value (never a cyclic-reference error); a field that must re-enter one while nothing can absorb it must fail with a cyclic-reference error. Non-trivial: the evaluation of some field dereferences a name more than once (repeated use / diamond) or re-enters a reference (cycle). Distinct: hash of the case.",
+	Rule:    "reference graphs over settings a-d, o{x,y}, l[2] with names drawn mostly from the own tree (self references, ancestor/descendant references through the object o, chains, diamonds, the same name several times in one string, references inside names and defaults), optionally an Env config and a resolver that can absorb a cycle. Every read entry point (typed getters, Child, Has, CountField, Unpack, use as merge source, FlattenedKeys, CompareConfigs) must return with typed errors; a field whose evaluation never re-enters a reference must yield the model's value (never a cyclic-reference error), read alone and together with all its siblings as fields of one struct; a field that must re-enter one while nothing can absorb it must fail with a cyclic-reference error. Non-trivial: the evaluation of some field dereferences a name more than once (repeated use / diamond) or re-enters a reference (cycle). Distinct: hash of the case.",
 	Gen:     genCase,
 	Run:     runCase,
 	Journal: true,
